@@ -41,3 +41,4 @@ CFG = {'level': 'exploration',
 CFG['level_text'] += ' A third of the root go.mod files come from the go.mod generator (non-ASCII comments, comment blocks glued to directives, CRLF, blocks, unknown directives) and the fixed list includes spellings only the lenient reader accepts (v1.24.0, 1.24.x, 1.25-custom).'
 CFG['level_text'] += ' Two cases have a root go.mod whose real content is MaxGoMod-1 and MaxGoMod bytes long and declares go 1.24.'
 CFG['level_text'] += ' One real tree holds a sparse file of MaxZipFile+1 bytes: directory check and list check must both report the size error and both ways of creating must fail.'
+CFG['level_text'] += ' The size-limit scenario includes a go.mod one byte over the limit that declares go 1.24: the file is invalid, the other files are still judged by the 1.24 vendoring rules.'
